@@ -503,6 +503,71 @@ def install(R):
 
     R.methods[("RandomState", "permutation")] = lambda E, recv, args, kwargs, node: _permutation(recv.fields["$rng"])(E, *args, **kwargs)
 
+    # ------------------------------------------------------------------ metrics / preprocessing / model_selection
+    @reg("sklearn.metrics.r2_score")
+    def _r2(E, y_true, y_pred, **kw):
+        r = E.real("r2")
+        E.trace.append(dict(op="r2_score", y_true=y_true, y_pred=y_pred, kwargs=dict(kw), result=r))
+        return r
+
+    @reg("numpy.corrcoef")
+    def _corrcoef(E, x, y=None, rowvar=True, **kw):
+        if not isinstance(x, NdArr) or x.ndim != 2:
+            raise Unsupported("corrcoef of %r" % (x,))
+        d = x.shape[0] if rowvar else x.shape[1]
+        if E.branch(z(d) == 1):
+            return E.real("corr_scalar")          # numpy returns a 0-d scalar for a single variable
+        return NdArr.fresh("corr", (d, d), "real")
+
+    @reg("numpy.atleast_2d")
+    def _atleast_2d(E, x):
+        if isinstance(x, NdArr) and x.ndim == 2:
+            return x
+        if is_num_like(x):
+            a = NdArr.fresh("a2d", (1, 1), "real")
+            a.set((0, 0), x)
+            a.cell.writes = 0
+            return a
+        raise Unsupported("atleast_2d(%r)" % (x,))
+
+    @reg("sklearn.preprocessing.scale")
+    def _scale(E, X, **kw):
+        """returns a NEW array of the same shape (copy=True default); the argument is not written"""
+        if isinstance(X, NdArr):
+            return NdArr.fresh("scaled", tuple(X.shape), "real")
+        raise Unsupported("scale(%r)" % (X,))
+
+    @reg("sklearn.model_selection.train_test_split")
+    def _tts(E, X, test_size=None, **kw):
+        """two new arrays partitioning the rows; with test_size=0.5 both parts are non-empty for n >= 2 (ValueError otherwise)"""
+        if not isinstance(X, NdArr) or X.ndim != 2:
+            raise Unsupported("train_test_split(%r)" % (X,))
+        n = z(X.shape[0])
+        E.safety("train_test_split", n >= 2, None, "ValueError")
+        n1, n2 = E.int("n_train"), E.int("n_test")
+        E.assume(z3.And(n1 >= 1, n2 >= 1, n1 + n2 == n))
+        E.trace.append(dict(op="train_test_split", rng="Global"))
+        return [NdArr.fresh("train", (n1, X.shape[1]), "real"), NdArr.fresh("test", (n2, X.shape[1]), "real")]
+
+    @reg("numpy.var")
+    def _var(E, a, **kw):
+        r = E.real("var")
+        E.assume(r >= 0)
+        return r
+
+    sqrtF = z3.Function("sqrt", z3.RealSort(), z3.RealSort())
+
+    def pow_(E, x, y, node):
+        if z3.is_rational_value(y) and y.numerator_as_long() == 1 and y.denominator_as_long() == 2:
+            r = sqrtF(x)
+            E.axiom(z3.Implies(x >= 0, z3.And(r >= 0, z3.Implies(x <= 1, r <= 1), z3.Implies(x == 0, r == 0))))
+            E.used_lemmas.add("sqrt maps [0,1] into [0,1]")
+            return r
+        raise Unsupported("power with exponent %s" % y)
+    R.pow_ = pow_
+
+    R.fns["sklearn.clone"] = R.fns["sklearn.base.clone"]
+
     # ------------------------------------------------------------------ joblib (A8)
     def _parallel(E, *a, **kw):
         def runner(E, calls):
